@@ -25,7 +25,7 @@ EXPLANATION = ("Theorems: in the model IRV, SNTV and SequentialRCV are literally
                "full-weight transfer; TopTwo is Plurality(2) -> remove the others -> Plurality(1); Alaska is "
                "Plurality(m_1) -> remove the losers -> STV(m_2) with rounds renumbered.")
 
-N_QUICK, N_THOROUGH = 1600, 19200
+N_QUICK, N_THOROUGH = 1600, 57600
 
 
 def cases(rng, tier, shard, nshards, phase):
